@@ -88,6 +88,28 @@ def frame_integrity(chk, prog, rid_fields="R6.frame_fields", rid_ahead="R6.no_re
         n_bodies += 1
         if p == DEC or p.startswith(DEC + "::"):
             continue        # the decoder fills the payload it has just allocated with the decoded length (read_exact, unmask)
+        # only a frame that is serialised afterwards matters: taking the payload out of a *received* frame (`buf.append(&mut frame.payload)`)
+        # changes nothing that is written.  Whole-local moves are followed (`let bytes: Vec<u8> = close.into()` moves the frame to a temporary).
+        alias = {}
+        def root(l):
+            seen_ = set()
+            while l in alias and l not in seen_:
+                seen_.add(l)
+                l = alias[l]
+            return l
+        for blk_ in b.blocks:
+            for st_ in blk_["stmts"]:
+                rv_ = st_.get("rv")
+                if rv_ and "pl" in st_ and not st_["pl"]["p"] and rv_.get("k") == "use":
+                    src_ = core.op_place(rv_["o"]) if hasattr(core, "op_place") else None
+                    if src_ and not src_["p"]:
+                        alias[st_["pl"]["l"]] = src_["l"]
+        serialised = set()
+        for blk_, t_ in b.calls():
+            if t_.get("arg_tys") and t_["arg_tys"][0].endswith("frame::Frame") and core.call_matches(t_, r"::into$|::from$|send_raw$|to_bytes$"):
+                l_ = core.op_local(t_["args"][0])
+                if l_ is not None:
+                    serialised.add(root(l_))
         for bi, blk in enumerate(b.blocks):
             if blk.get("cleanup"):
                 continue
@@ -104,7 +126,8 @@ def frame_integrity(chk, prog, rid_fields="R6.frame_fields", rid_ahead="R6.no_re
                     for e in pl["p"]:
                         if e[0] == "f":
                             base = cur.lstrip("&").replace("mut ", "", 1) if cur.startswith("&") else cur
-                            if base.endswith("frame::Frame") and e[1] in frozen:
+                            by_ref = cur.startswith("&")
+                            if base.endswith("frame::Frame") and e[1] in frozen and (by_ref or root(pl["l"]) in serialised):
                                 # an aggregate assignment of the whole struct is not a projection; this is a write to one field
                                 chk.ob(rid_fields, p, f"Frame.{frozen[e[1]]} is not changed after the frame was built", False,
                                        f"field `{frozen[e[1]]}` of a Frame is {how} outside the decoder: `length` (header) and `payload` (body) of the serialised frame can disagree",
